@@ -320,6 +320,25 @@ def iter_cases():
             raise AssertionError("tee replay traversal never yielded")
     out.append(Case("itertools.tee replay of a drained sibling", nothing, op_tee_replay,
                     lambda _: 0))
+
+    # iterators with a history: forks of a (partly) consumed tee iterator
+    for consumed in (1, 2, 3):
+        async def setup_fork(tg, consumed=consumed):
+            a = ait.tee([0, 1], 1)[0]
+            for _ in range(consumed):
+                try:
+                    await a.__anext__()
+                except StopAsyncIteration:
+                    pass
+            return a
+
+        async def op_fork(a):
+            for it in ait.tee(a, 2):
+                async for _x in it:
+                    pass
+                break  # one traversal = one operation
+        out.append(Case(f"itertools.tee fork of a tee iterator after {consumed} __anext__ calls "
+                        f"(2 elements)", setup_fork, op_fork, lambda _: 0))
     return out
 
 
